@@ -118,7 +118,12 @@ Record ovr := mkOvr {
   o_stateless : option bool;
   o_parallel : option bool;
   o_followup : option str }.
-Record world := mkWorld { w_layers : list layer; w_env : env; w_ovr : ovr }.
+(* w_misfit: the merged JSON document is well-formed but does not fit the typed schema (a string where the header map is
+   expected, an unquoted numeric token, a provider written without its id level ...).  Some q = it does not fit and q is
+   the scalar that serde's type error quotes ([] when the message quotes none); None = it fits.  An abstraction of the JSON
+   level: which documents misfit is decided by serde, the harness states it per scenario and the correspondence checks
+   the consequence (the typed configuration is the default one) on the real code. *)
+Record world := mkWorld { w_layers : list layer; w_env : env; w_ovr : ovr; w_misfit : option str }.
 
 Definition no_ovr : ovr := mkOvr None None None None None.
 
@@ -285,8 +290,14 @@ Definition resolve (c : config) (e : env) (o : ovr) : option resolved :=
               (resolve_stateless c e o) (resolve_parallel c e o) (resolve_followup c e o))
   end.
 
+(* load_effective_config (config.rs:232): `serde_json::from_value::<RipConfig>(merged).unwrap_or_default()` - a merged
+   document that does not fit the schema is dropped WHOLE and silently: every layer reverts to the defaults and the
+   schema error goes nowhere *)
+Definition load_config (w : world) : config :=
+  match w_misfit w with Some _ => empty_config | None => merge_layers (w_layers w) end.
+
 Definition resolve_world (w : world) (o : ovr) : option resolved :=
-  resolve (merge_layers (w_layers w)) (w_env w) o.
+  resolve (load_config w) (w_env w) o.
 
 (* ---- the provider configuration a run works with (provider_openresponses.rs:6-66) --------- *)
 Record orcfg := mkOr {
@@ -339,6 +350,17 @@ Definition doctor_of (r : resolved) : doctor_summary :=
            (match r_key r with Some v => negb (blank v) | None => false end)
            (r_key_source r) (map fst (r_headers r)) (r_stateless r) (r_parallel r) (r_followup r).
 Definition doctor (w : world) : option doctor_summary := option_map doctor_of (resolve_world w no_ovr).
+
+(* the per-source report of the doctor (`sources[*].error`, server.rs config_doctor <- config.rs ConfigSourceReport) for files
+   that parse as JSON(C): no error text at all - the schema stage reports nothing *)
+Definition source_errors (w : world) : list str := [].
+Definition doctor_report (w : world) : list str * option doctor_summary := (source_errors w, doctor w).
+(* the text serde produces for a mis-typed scalar: it QUOTES the scalar *)
+Definition serde_type_error (q : str) : str := lit "invalid type: string """ ++ q ++ lit """, expected a map".
+(* NOT what the code does - what it would do if the schema error were surfaced with the `error: Some(err.to_string())` idiom
+   of the neighbouring parse-error branch (kept to show why that flow must stay closed: Proofs c19 surfaced lemma) *)
+Definition source_errors_surfaced (w : world) : list str :=
+  match w_misfit w with Some q => [serde_type_error q] | None => [] end.
 
 (* ---- requests, provider, frames ----------------------------------------------------------- *)
 Record tcall := mkCall { tc_id : str; tc_name : str; tc_args : str }.
@@ -607,7 +629,7 @@ Definition low_layer (l : layer) : layer :=
 Definition low_env (e : env) : env :=
   map (fun kv => (fst kv, if is_public_env (fst kv) then snd kv else mask (snd kv))) e.
 Definition low_world (w : world) : world :=
-  mkWorld (map low_layer (w_layers w)) (low_env (w_env w)) (w_ovr w).
+  mkWorld (map low_layer (w_layers w)) (low_env (w_env w)) (w_ovr w) (option_map mask (w_misfit w)).
 
 (* tools whose output does not depend on secret values (the hypothesis under which noninterference holds) *)
 Definition tools_blind (ws : wscript) : Prop := forall w c, ws_tools ws w c = ws_tools ws (low_world w) c.
@@ -771,12 +793,17 @@ Fixpoint enc_milestones (fs : list frame) : list N :=
   | _ :: r => enc_milestones r
   end.
 
+Definition enc_report (w : world) : list N :=
+  nlen (source_errors w) :: flat_map enc_str (source_errors w) ++ enc_doctor (doctor w).
+
+(* outcome 99: only the diagnostic surface was exercised (GET /config/doctor, `rip config doctor`) *)
 Definition model_obs (c : case) : list N :=
   let w := cs_world c in
+  if cs_outcome c =? 99 then enc_report w else
   let o := run 40 (outcome_script (cs_outcome c)) (cs_thread c) w (lit "prompt") [IUser (lit "prompt")] in
   let reqs := enc_req_frames (out_session o) in
   let curs := enc_cursors (out_thread o) in
-  enc_doctor (doctor w)
+  enc_report w
   ++ enc_first_sent (out_sent o) (negb (cs_outcome c =? 2))
   ++ nlen reqs :: List.concat reqs
   ++ enc_ostr (ended_reason (out_session o))
